@@ -141,6 +141,12 @@ theorem guardStep_ok (g : Guard) : StepOK (guardStep g) (fun _ => True) (fun _ r
     intro x now rep
     exact ⟨rfl, g.proceedAfter_cases now rep⟩
 
+/-- the recover boundary that reports is the identity: whatever comes up — the unwinding panic
+    included — reaches the scan unchanged -/
+theorem recoverStep_ok : StepOK (recoverStep true) (fun _ => True) (fun _ r => [r]) unitNx where
+  pre_ok := by intro x now r _; simp [recoverStep, unitNx]
+  post_ok := by intro x now rep; simp [recoverStep]
+
 theorem oomStep_ok (oomAt : Option Nat) : StepOK (oomStep oomAt) (fun _ => True) (fun _ r => [r]) idxNx where
   pre_ok := by
     intro i now r _
